@@ -23,6 +23,7 @@ type tabEntry struct {
 	KeyNum *int64  `json:"key_num,omitempty"` // ... or number key
 	Val    *string `json:"val_hex,omitempty"` // string value (hex); nil with Num nil = false
 	Num    *int64  `json:"val_num,omitempty"` // number value
+	Bad    string  `json:"val_bad,omitempty"` // a value that is no valid replacement: table | true | func | userdata
 }
 
 type replIn struct {
@@ -41,6 +42,8 @@ type in struct {
 	Limit *int64  `json:"limit,omitempty"`
 	Repl  *replIn `json:"repl,omitempty"`
 	Off   int64   `json:"off,omitempty"`
+	Plain bool    `json:"plain,omitempty"` // find: pass `true` as 4th argument ...
+	Extra int     `json:"extra,omitempty"` // ... followed by this many nil arguments
 	Src   string  `json:"origin,omitempty"` // generator stream, for the distribution table
 }
 
@@ -122,6 +125,16 @@ func pcall(L *lua.LState, fn lua.LValue, args ...lua.LValue) (res []lua.LValue, 
 }
 
 func entryToLV(e tabEntry) lua.LValue {
+	switch e.Bad {
+	case "table":
+		return cL.NewTable()
+	case "true":
+		return lua.LTrue
+	case "func":
+		return cL.NewFunction(func(L *lua.LState) int { return 0 })
+	case "userdata":
+		return cL.NewUserData()
+	}
 	if e.Val != nil {
 		return lua.LString(string(unhex(*e.Val)))
 	}
@@ -162,6 +175,14 @@ func runReal(c in) (o out) {
 		args := []lua.LValue{lua.LString(s), lua.LString(p)}
 		if c.Init != nil {
 			args = append(args, lua.LNumber(*c.Init))
+		} else if c.Plain {
+			args = append(args, lua.LNumber(1))
+		}
+		if c.Plain {
+			args = append(args, lua.LTrue)
+			for k := 0; k < c.Extra; k++ {
+				args = append(args, lua.LNil)
+			}
 		}
 		res, kind, msg := pcall(L, L.GetField(strlib, c.Fn), args...)
 		o = out{Kind: kind, Msg: msg, Vals: conv(res)}
@@ -445,13 +466,16 @@ func coqOptZ(p *int64) string {
 }
 
 func coqOptBytes(e tabEntry) string {
+	if e.Bad != "" {
+		return "RBad"
+	}
 	if e.Val != nil {
-		return "(Some " + lib.CoqBytes(unhex(*e.Val)) + ")"
+		return "(RSome " + lib.CoqBytes(unhex(*e.Val)) + ")"
 	}
 	if e.Num != nil {
-		return "(Some " + lib.CoqBytes([]byte(fmt.Sprint(*e.Num))) + ")"
+		return "(RSome " + lib.CoqBytes([]byte(fmt.Sprint(*e.Num))) + ")"
 	}
-	return "None"
+	return "RNone"
 }
 
 func coqRepl(r *replIn) string {
@@ -499,6 +523,14 @@ func coqCase(c in, o out) string {
 	s, p := lib.CoqBytes(unhex(c.S)), lib.CoqBytes(unhex(c.P))
 	switch c.Fn {
 	case "find":
+		if c.Plain {
+			init := c.Init
+			if init == nil {
+				one := int64(1)
+				init = &one
+			}
+			return fmt.Sprintf("CFindPlain %s %s %s %d %s", s, p, coqOptZ(init), c.Extra, obsWrap(o.Kind, coqVals(o.Vals)))
+		}
 		return fmt.Sprintf("CFind %s %s %s %s", s, p, coqOptZ(c.Init), obsWrap(o.Kind, coqVals(o.Vals)))
 	case "match":
 		return fmt.Sprintf("CMatch %s %s %s %s", s, p, coqOptZ(c.Init), obsWrap(o.Kind, coqVals(o.Vals)))
